@@ -211,18 +211,7 @@ def frames():
 # ------------------------------------------------------------------------------------------------
 # structures for Dwann
 # ------------------------------------------------------------------------------------------------
-_h3 = np.sqrt(3) / 2
-STRUCTURES = {
-    "sc1": dict(lattice=[[1, 0, 0], [0, 1, 0], [0, 0, 1]], positions=[[0, 0, 0]], typat=[1], magmom=None),
-    "bcc_mag": dict(lattice=[[-.5, .5, .5], [.5, -.5, .5], [.5, .5, -.5]], positions=[[0, 0, 0]], typat=[1], magmom=[[0, 0, 1]]),
-    "hcp": dict(lattice=[[1, 0, 0], [-.5, _h3, 0], [0, 0, 1.6]], positions=[[1 / 3, 2 / 3, 0], [2 / 3, 1 / 3, .5]], typat=[1, 1],
-                magmom=None),
-    "zb": dict(lattice=[[0, .5, .5], [.5, 0, .5], [.5, .5, 0]], positions=[[0, 0, 0], [.25, .25, .25]], typat=[1, 2], magmom=None),
-    "diamond": dict(lattice=[[0, .5, .5], [.5, 0, .5], [.5, .5, 0]], positions=[[0, 0, 0], [.25, .25, .25]], typat=[1, 1],
-                    magmom=None),
-    "mono": dict(lattice=[[1, 0, 0], [0, 1.1, 0], [0.3, 0, 1.4]], positions=[[0.1, 0.25, 0.2], [-0.1, 0.75, -0.2]], typat=[1, 1],
-                 magmom=None),
-}
+from wbmc.structures import STRUCTURES, get_spacegroup  # noqa: E402
 
 # (structure, site label, seed position, [(orbital, mode)]) ; mode = "same" (one global frame), "rot" (rotate_basis=True),
 # "rot:z=..." local z axis given (rotate_basis=True)
@@ -409,13 +398,6 @@ def mod1_equal(a, b, tol=1e-6):
     return np.abs(d - np.round(d)).max() < tol
 
 
-def get_spacegroup(structure, spinor):
-    from irrep.spacegroup import SpaceGroup
-    s = STRUCTURES[structure]
-    return SpaceGroup.from_cell(real_lattice=np.array(s["lattice"], dtype=float), positions=np.array(s["positions"], dtype=float),
-                                typat=s["typat"], magmom=s["magmom"], spinor=spinor)
-
-
 def run_dwann(case):
     from wannierberri.symmetry.Dwann import Dwann
     from wannierberri.symmetry.orbitals import OrbitalRotator, num_orbitals
@@ -539,7 +521,11 @@ def run_dwann(case):
                     phase = np.exp(2j * np.pi * np.dot(gk, Tref[ip, isym]))
                     nchecked += 1
                     if np.abs(blk - phase * Bref).max() > TOL:
-                        what = "phase" if np.abs(np.abs(blk) - np.abs(Bref)).max() < TOL else "orbital_block"
+                        big = np.abs(Bref) > 1e-6
+                        ratio = blk[big] / (phase * Bref[big])
+                        scalar = (np.abs(blk[~big]).max(initial=0) < TOL and np.abs(np.abs(ratio) - 1).max() < 1e-6
+                                  and np.abs(ratio - ratio[0]).max() < 1e-6)
+                        what = "phase" if scalar else "orbital_block"
                         return {"ok": False, "key": f"Dwann.get_on_points:{what}",
                                 "detail": where + f" isym={isym} (TR={TR}) k={k.tolist()} block ({jp},{ip}) T={Tref[ip, isym].tolist()} "
                                                   f"max diff {np.abs(blk - phase * Bref).max():.3e}"}
